@@ -25,7 +25,7 @@ From Coq Require Import ZArith List Bool.
 From Low Require Import Lib.BitSeq Lib.Bytes Model.Pbcmpl Spec.PbcmplSpec
   Proofs.PbcmplIO Proofs.PbcmplHeader Proofs.PbcmplProofs Proofs.PbcmplMarshal
   Proofs.PbcmplFrames Proofs.PbcmplStream Proofs.PbcmplHistory Proofs.PbcmplWalk.
-From Low Require Import Model.PbcmplWalk Spec.PbcmplWalkSpec.
+From Low Require Import Model.PbcmplWalk Spec.PbcmplWalkSpec Lib.Val Run.PbcmplOps Run.PbcmplWalkOps Run.C06 Proofs.PbcmplOpsC06.
 Import ListNotations.
 Open Scope Z_scope.
 
@@ -185,6 +185,42 @@ Example C06_walk_nonvacuous :
              (32, None, repeat 120 16, 32, 203, 10 :: 200 :: 1 :: repeat 7 200, false);
              (0, Some EEOF, [], 0, 0, [], false)], ([], t)).
 Proof. vm_compute. reflexivity. Qed.
+
+(** the four protocol operations of C06 exactly as Run/C06.v runs them, for the two
+    concrete codecs: on every in-domain argument the value computed from the model IS
+    the value computed from the specification (the verdict MODELBUG is impossible, and
+    OK means the implementation returned the specification's value) *)
+Theorem C06_op_marshal : forall kind m,
+  msg_wf m -> v_marshal_model kind [] m = v_marshal_spec kind [] m.
+Proof. exact op_Marshal. Qed.
+Print Assumptions C06_op_marshal.
+
+Theorem C06_op_readheader : forall kind, kind = 0 \/ kind = 1 ->
+  forall m pat, msg_wf m -> all_pos pat = true ->
+  match s_Marshal kind [] (snd m) (fst m) with
+  | None => VPanic
+  | Some (_, _, (_, wire)) => v_readheader_model (chunks_of pat wire, term_of 0 false)
+  end = v_readheader (32, None, ver_of (fst m), 32, zlen (k_enc kind (snd m))).
+Proof. exact op_ReadHeader. Qed.
+Print Assumptions C06_op_readheader.
+
+Theorem C06_op_roundtrip : forall kind, kind = 0 \/ kind = 1 ->
+  forall ms pat wl,
+  Forall msg_wf ms -> all_pos pat = true -> zlen (wire_of (k_enc kind) ms) < 2 ^ 63 ->
+  roundtrip_model kind ms pat wl = roundtrip_spec kind ms.
+Proof. exact op_Roundtrip. Qed.
+Print Assumptions C06_op_roundtrip.
+
+Theorem C06_op_walk : forall kind, kind = 0 \/ kind = 1 ->
+  forall ms pat wl,
+  Forall msg_wf ms -> forallb (walk_body_ok kind) ms = true -> all_pos pat = true ->
+  zlen (wire_of (k_enc kind) ms) < 2 ^ 63 ->
+  match model_wire kind ms with
+  | None => VPanic
+  | Some wire => v_walk_model (chunks_of pat wire, term_of 0 wl)
+  end = VL [VL (map v_wstep (frames_walk (k_enc kind) ms)); vzs []].
+Proof. exact op_Walk_frames. Qed.
+Print Assumptions C06_op_walk.
 
 (** non-vacuity: three frames (BytesValue bodies of 3, 0 and 200 bytes — the last one
     with a two-byte varint —, versions "1.2.3", none (DefaultVer) and 16 non-NUL bytes),
